@@ -9,6 +9,7 @@ CONSTANTS
   MinTotal = 0
   Leaky = FALSE
   Alphabet <- CoreCmds
+  PreAlphabet <- CorePreCmds
   Kinds <- AllKinds
   Ctxs <- MainCtx
 INIT Init
